@@ -504,3 +504,85 @@ def _conversion(f, e: ast.AST, labels: str, seen=None, cfg=None, rd=None, at=Non
         if isinstance(e, ast.IfExp):
             return _conversion(f, e.body, labels, seen, cfg, rd, at) or _conversion(f, e.orelse, labels, seen, cfg, rd, at)
         return f"'{norm(e)[:60]}'"
+
+
+# ---------------------------------------------------------------------------------------------
+# R-CLOSEDSIDE (C07): binning respects which side of the intervals is closed, at *both* places that decide it.
+# np.digitize(right=...) decides the interior edges; the out-of-range mask decides the outer edge: with right-closed bins a label equal
+# to the last edge belongs to the last bin (mask must use <=), with left-closed bins it is outside (mask must use <).  Both decisions
+# must therefore depend on the index's closed side; an outer-edge mask that ignores it is wrong for one of the two kinds of index.
+_CLOSED_ATTRS = {"closed", "closed_right", "closed_left"}
+
+
+def _local_closure(f, e: ast.AST, limit=6) -> list[ast.AST]:
+    """e plus the values of the locals it mentions, transitively (flow-insensitive)"""
+    assigns: dict[str, list] = {}
+    for a in walk_own(f.node):
+        if isinstance(a, ast.Assign) and len(a.targets) == 1 and isinstance(a.targets[0], ast.Name):
+            assigns.setdefault(a.targets[0].id, []).append(a.value)
+    out, seen, work = [e], set(), [(e, 0)]
+    while work:
+        cur, d = work.pop()
+        if d >= limit:
+            continue
+        for nm in names_in(cur):
+            if nm in seen:
+                continue
+            seen.add(nm)
+            for v in assigns.get(nm, []):
+                out.append(v)
+                work.append((v, d + 1))
+    return out
+
+
+def _mentions_closed_side(exprs) -> bool:
+    return any(isinstance(n, ast.Attribute) and n.attr in _CLOSED_ATTRS for e in exprs for n in ast.walk(e))
+
+
+def rule_closedside(ctx) -> RuleResult:
+    res = RuleResult("R-CLOSEDSIDE", "both the interior edges (np.digitize) and the outer-edge mask follow the closed side of the bins", min_instances=2)
+    f, labels, codes = _producer(ctx)
+    dig = [c for c in walk_own(f.node) if isinstance(c, ast.Call) and norm(c.func) in ("np.digitize", "numpy.digitize")]
+    if not dig:
+        res.notes.append("no np.digitize in _factorize_single: binning is implemented differently; rule not applicable")
+        res.min_instances = 0
+        return res
+    edge_vars: set[str] = set()
+    for c in dig:
+        r = kwarg(c, "right") or (c.args[2] if len(c.args) > 2 else None)
+        b = kwarg(c, "bins") or (c.args[1] if len(c.args) > 1 else None)
+        if b is not None:
+            edge_vars |= names_in(b)
+        ok = r is not None and _mentions_closed_side(_local_closure(f, r))
+        res.inst(f"{f.qualname}: np.digitize(right={norm(r) if r is not None else '<default False>'}) follows the closed side: {ok}", "digitize")
+        if not ok:
+            res.report(f"{f.qualname}|digitize-side", f"flox/core.py:{c.lineno}", f.qualname,
+                       f"np.digitize is called with right={norm(r) if r is not None else 'False (default)'}, which does not depend on the closed side "
+                       "of the requested IntervalIndex: labels on an interior edge go to the wrong bin for one kind of index (pandas.cut disagrees)")
+    # outer-edge masks: stores of -1 under a mask comparing label values with the edges
+    derived = _label_derived(f, labels)
+    n_masks = 0
+    for a in walk_own(f.node):
+        if not (isinstance(a, ast.Assign) and len(a.targets) == 1 and isinstance(a.targets[0], ast.Subscript) and norm(a.value) == "-1"):
+            continue
+        tgt = a.targets[0]
+        if not (isinstance(tgt.value, ast.Name) and tgt.value.id in codes):
+            continue
+        clo = _local_closure(f, tgt.slice)
+        edge_cmp = [c for e in clo for c in ast.walk(e)
+                    if isinstance(c, ast.Compare) and len(c.ops) == 1 and isinstance(c.ops[0], (ast.Lt, ast.LtE, ast.Gt, ast.GtE))
+                    and (names_in(c) & edge_vars) and (names_in(c) & derived)]
+        if not edge_cmp:
+            continue
+        n_masks += 1
+        ok = _mentions_closed_side(clo)
+        res.inst(f"{f.qualname}: outer-edge mask '{norm(a)[:40]}' ({', '.join(norm(c)[:30] for c in edge_cmp[:2])}) follows the closed side: {ok}", "outer")
+        if not ok:
+            res.report(f"{f.qualname}|outer-edge-side", f"flox/core.py:{a.lineno}", f.qualname,
+                       f"the out-of-range mask '{norm(a)[:60]}' compares labels with the outer bin edge ({norm(edge_cmp[0])[:40]}) without looking at "
+                       "which side of the bins is closed: a label equal to the last edge is kept for left-closed bins (or dropped for right-closed ones)")
+    if n_masks == 0:
+        res.report(f"{f.qualname}|outer-edge-unmasked", f.where(), f.qualname,
+                   "np.digitize codes are used without an out-of-range mask on the outer edge: labels beyond the last edge get the code len(bins)-1, "
+                   "an index past the last bin")
+    return res
